@@ -33,6 +33,48 @@ theorem args_unterminated (d : Bytes) (h0 : d.getLast? ≠ some 0) :
   unfold args
   simp [h0]
 
+/-- **kernel side of setproctitle.** The title `t` written over an argument area of `a` bytes followed by an
+    environment area of `e` bytes, the rest NUL-padded: a title shorter than the argument area is exposed
+    with the padding up to `arg_end`; a longer one (the final NUL of the area is overwritten) as the C
+    string `t NUL`. -/
+theorem kernelCmdline_title (t : Bytes) (a e : Nat) (ht0 : 0 ∉ t) (hne : t ≠ []) (ha : 0 < a)
+    (hfit : t.length < a + e) :
+    kernelCmdline ((titleArea t (a + e)).take a) ((titleArea t (a + e)).drop a)
+      = if t.length < a then t ++ List.replicate (a - t.length) 0 else t ++ [0] := by
+  unfold kernelCmdline titleArea
+  by_cases h : t.length < a
+  · have htake : (t ++ List.replicate (a + e - t.length) 0).take a = t ++ List.replicate (a - t.length) 0 := by
+      rw [List.take_append, List.take_of_length_le (by omega), List.take_replicate]
+      congr 2
+      omega
+    obtain ⟨k, hk⟩ : ∃ k, a - t.length = k + 1 := ⟨a - t.length - 1, by omega⟩
+    have hlast : (t ++ List.replicate (a - t.length) 0).getLast? = some 0 := by
+      rw [hk, List.replicate_succ', ← List.append_assoc, List.getLast?_append]
+      simp
+    rw [htake, if_pos (Or.inr hlast), if_pos h]
+  · have hle : a ≤ t.length := by omega
+    have htake : (t ++ List.replicate (a + e - t.length) 0).take a = t.take a := by
+      rw [List.take_append_of_le_length hle]
+    have hnil : t.take a ≠ [] := by
+      cases t with
+      | nil => exact absurd rfl hne
+      | cons x xs =>
+        cases a with
+        | zero => omega
+        | succ a => simp
+    have hlast : (t.take a).getLast? ≠ some 0 := by
+      intro hl
+      exact ht0 (List.mem_of_mem_take (List.mem_of_getLast? hl))
+    obtain ⟨m, hm⟩ : ∃ m, a + e - t.length = m + 1 := ⟨a + e - t.length - 1, by omega⟩
+    have htw : (t ++ List.replicate (a + e - t.length) 0).takeWhile (· != 0) = t := by
+      rw [hm, List.replicate_succ]
+      exact takeWhile_ne_append 0 t _ ht0
+    rw [htake, if_neg (by simp [hnil, hlast]), if_neg h]
+    simp only [← htake, List.take_append_drop, htw]
+    have : t.length < (t ++ List.replicate (a + e - t.length) 0).length := by
+      simp only [List.length_append, List.length_replicate]; omega
+    rw [if_pos this]
+
 /-! ### environment blocks, entry by entry -/
 
 /-- a block that is empty or ends in NUL is empty or starts with a NUL-terminated entry followed by such
@@ -83,7 +125,7 @@ theorem takeWhile_ne_self (c : Nat) (e : Bytes) (h : c ∉ e) : e.takeWhile (· 
   | cons x xs ih =>
     have hx : x ≠ c := fun e => h (by simp [e])
     have hxs : c ∉ xs := fun m => h (by simp [m])
-    simp [List.takeWhile_cons, hx, ih hxs]
+    simp [hx, ih hxs]
 
 /-- an entry is not an assignment iff it has no `=` at all or starts with one (empty NAME) -/
 theorem parseEntry_none_iff (e : Bytes) :
@@ -105,7 +147,7 @@ theorem parseEntry_none_iff (e : Bytes) :
             rw [hab, takeWhile_ne_append 61 a b hna]
             simp
           have hne : ((x :: xs).takeWhile (· != 61)) ≠ [] := by
-            simp [List.takeWhile_cons, hx]
+            simp [hx]
           have hemp : ((x :: xs).takeWhile (· != 61)).isEmpty = false := by
             cases hh : (x :: xs).takeWhile (· != 61) with
             | nil => exact absurd hh hne
